@@ -9,3 +9,4 @@ pub mod monitor;
 pub mod pipe;
 pub mod rec;
 pub mod rng;
+pub mod spec;
